@@ -763,6 +763,46 @@ def _check_segment(c):
     return None
 
 
+def _kept_packs(kind, batch):
+    """pack every element of the batch, KEEP the returned buffers (no copy), and look at them only after the last pack
+    (an application builds the whole trajectory first and uploads afterwards); an element whose pack() raises stays in
+    the batch.  Returns the kept encodings as lists, [-1] for a raise."""
+    from cflib.crazyflie.mem.trajectory_memory import CompressedSegment, CompressedStart
+    cls = CompressedStart if kind == 'start' else CompressedSegment
+    kept = []
+    for c in batch:
+        try:
+            kept.append(cls(*c).pack())
+        except (struct.error, OverflowError, ValueError):
+            kept.append(None)
+    return [[-1] if k is None else list(k) for k in kept]
+
+
+def _check_kept(kind, batch):
+    alone = [(_impl_start if kind == 'start' else _impl_seg)(c) for c in batch]
+    kept = _kept_packs(kind, batch)
+    for i, (a, k) in enumerate(zip(alone, kept)):
+        if a != k:
+            if kind == 'start':
+                args = [[_dbl(x) for x in c] for c in batch]
+            else:
+                args = [[_dbl(c[0])] + [[_dbl(x) for x in e] for e in c[1:]] for c in batch]
+            return {'class': 'traj_encoding_changed_by_a_later_pack',
+                    'case': {'fn': 'traj_kept', 'kind': kind, 'batch': args, 'index': i},
+                    'expected': a, 'observed': k,
+                    'detail': 'the encoding returned by pack() for element %d no longer holds what was encoded once later '
+                              'elements had been packed' % i}
+    return None
+
+
+def _replay_kept(c):
+    if c['kind'] == 'start':
+        batch = [tuple(_unhex(x) for x in a) for a in c['batch']]
+    else:
+        batch = [(_unhex(a[0]),) + tuple([_unhex(x) for x in e] for e in a[1:]) for a in c['batch']]
+    return _check_kept(c['kind'], batch)
+
+
 def oracle_streams(ctx, deep=False):
     fails = []
     rng = _random.Random(ctx.seed * 104729 + 7)
@@ -800,9 +840,16 @@ def oracle_streams(ctx, deep=False):
         f = _check_segment(c)
         if f:
             fails.append(f)
-    return {'evaluations': 4 * n, 'failures': fails,
+    nb = max(20, n // 20)
+    for kind, gen in (('start', _gen_start), ('seg', _gen_seg)):
+        elems = gen(rng, 5 * nb)
+        for b in range(nb):
+            f = _check_kept(kind, elems[5 * b:5 * b + 5])
+            if f:
+                fails.append(f)
+    return {'evaluations': 4 * n + 2 * nb, 'failures': fails,
             'rule': 'angle stream vs numpy.float16 reference; range reports vs struct reference; CompressedStart vs exact '
-                    'rational millimetres / decidegrees (< 1 unit, overflow raises)'}
+                    'rational millimetres / decidegrees (< 1 unit, overflow raises); encodings kept across later packs (batches of 5)'}
 
 
 def _replay_lh(c):
@@ -839,7 +886,7 @@ def _replay_range_stream(c):
 
 
 _REPLAYERS = {'lh_angle': _replay_lh, 'traj_start': _replay_start, 'traj_segment': _replay_segment,
-              'range_stream': _replay_range_stream}
+              'range_stream': _replay_range_stream, 'traj_kept': _replay_kept}
 
 
 def _merge(a, b):
